@@ -10,6 +10,7 @@ mod gen;
 mod model;
 
 mod c01;
+mod c03;
 mod c04;
 mod c05;
 mod c07;
@@ -42,6 +43,7 @@ fn main() {
             }
         }
         "c01-model" => c01::model_leg(&args),
+        "c03-twin" => c03::twin_leg(&args),
         "c04-pipeline" => c04::pipeline_leg(&args),
         "c04-malformed" => c04::malformed_leg(&args),
         "c05-txn" => c05::txn_leg(&args),
